@@ -86,6 +86,37 @@ def context_suite(vals, gates):
             yield ctx_program(e, e, a, b, CONTEXTS if not (op in ("div", "mod") and b == 0) else ["init"])
 
 
+def incdec_value_programs():
+    """the VALUE of ++ / -- (prefix: new, postfix: old) on every kind of integer lvalue, used in every kind of context"""
+    lvs = [("(var x)", "(decl - int x (lit 20))", "(e (var x))"),
+           ("(idx a (lit 1))", "(declarr - int a (dims 3) (init (lit 10) (lit 20) (lit 30)))", "(e (idx a (lit 1)))"),
+           ("(idx a (var k))", "(declarr - int a (dims 3) (init (lit 10) (lit 20) (lit 30))) (decl - int k (lit 2))", "(e (idx a (lit 2)))"),
+           ("(idx m (lit 1) (lit 0))", "(declarr - int m (dims 2 2)) (assign (idx m (lit 0) (lit 0)) (lit 1)) (assign (idx m (lit 0) (lit 1)) (lit 2)) (assign (idx m (lit 1) (lit 0)) (lit 20)) (assign (idx m (lit 1) (lit 1)) (lit 4))", "(e (idx m (lit 1) (lit 0)))"),
+           ("(idx la (lit 0))", "(declarr - long la (dims 2) (init (lit 5000000000) (lit 7)))", "(e (idx la (lit 0)))"),
+           ("(idx ta (lit 1))", "(declarr - tiny ta (dims 2) (init (lit 1) (lit 100)))", "(e (idx ta (lit 1)))"),
+           ("(fld s f)", "(declstruct S s) (assign (fld s f) (lit 20)) (assign (fld s g) (lit 1))", "(e (fld s f))"),
+           ("(fldidx s arr (lit 1))", "(declstruct S s) (assign (fldidx s arr (lit 0)) (lit 3)) (assign (fldidx s arr (lit 1)) (lit 20))", "(e (fldidx s arr (lit 1)))"),
+           ("(idx ga (lit 1))", "", "(e (idx ga (lit 1)))")]
+    out = []
+    for lv, decl, show in lvs:
+        for pre in ("pre", "post"):
+            for inc in ("inc", "dec"):
+                e = "(incdec %s %s %s)" % (pre, inc, lv)
+                ctxs = ["(decl - long v %s) (print (e (var v)) %s)" % (e, show),
+                        "(decl - long v (lit 0)) (assign (var v) %s) (print (e (var v)) %s)" % (e, show),
+                        "(print (e %s) %s)" % (e, show),
+                        "(print (e (bin add %s %s)) %s)" % (e, "(incdec pre %s %s)" % (inc, lv), show),
+                        "(decl - long n (lit 0)) (while (bin gt %s (lit 17)) ((compound add (var n) (lit 1)) (if (bin gt (var n) (lit 9)) ((break))))) (print (e (var n)) %s)" % ("(incdec %s dec %s)" % (pre, lv), show),
+                        "(print (e (call idf %s)) %s)" % (e, show),
+                        "(print (e (tern (bin gt %s (lit 20)) (lit 1) (lit 2))) %s)" % (e, show),
+                        "(decl - long v (bin mul %s (lit 2))) (print (e (var v)) %s)" % (e, show),
+                        "(printi (s \"v=\") (e %s) (s \";\")) (print %s)" % (e, show)]
+                for c in ctxs:
+                    out.append("(prog (structs (struct S (field int f) (field int g) (field int arr 2))) (globals (declarr - int ga (dims 3) (init (lit 10) (lit 20) (lit 30)))) "
+                               "(funcs (func idf long (params (long q)) ((ret (var q)))) (func main int (params) (%s %s (print (s \"END\")) (ret (lit 0))))))" % (decl, c))
+    return out
+
+
 def switch_programs(seed, n):
     """if / else-if chains over one plain variable (clauses overlap, bodies may change the tested variable or leave the
     enclosing loop); the rendered text is rewritten into a `switch` statement (refrun.ifchain_to_switch)"""
@@ -158,6 +189,7 @@ def main(a):
     c.suite("contexts", context_suite(VALS_Q if quick else VALS_T, c.gates),
             nontrivial=lambda r: hash(r.sexp) if r.status != "undef" else None)
     import refrun
+    c.suite("incdec-values", incdec_value_programs(), nontrivial=lambda r: hash(r.sexp), max_report=4)
     c.suite("switch", list(switch_programs(a.seed, 150 if quick else 6000)), nontrivial=lambda r: hash(r.stdout),
             max_report=4, source_transform=refrun.ifchain_to_switch)
     n = 1500 if quick else 150000
